@@ -89,7 +89,9 @@ def scorer_cases(draw, tier):
         cuts = [draw(cut3(n, ms)) for _ in range(draw(st.integers(1, 6)))]
     else:
         cuts = [draw(cut4(n, ms)) for _ in range(draw(st.integers(1, 4)))]
-    return {"scorer": name, "X": X, "cuts": cuts, "t": draw(transformation(p, kinds))}
+    return {"scorer": name, "X": X, "cuts": cuts, "t": draw(transformation(p, kinds)),
+            # the transformed data may be a *view* of the same buffer, and the same scorer object may be refitted on it
+            "same_object_view": draw(st.sampled_from([False, False, True]))}
 
 
 def min_slice_variance(X, cuts, multivariate):
@@ -156,8 +158,15 @@ def check_scorer(case):
         return {"nontrivial": False, "classes": classes + ["near_degenerate_skipped"]}
     try:
         with sut(f"{name} on X and on transformed X", allowed=(RuntimeError,)):
-            a = np.asarray(K.build(spec).fit(X).evaluate(cuts))
-            b = np.asarray(K.build(spec).fit(Xt).evaluate(cuts_t))
+            if case.get("same_object_view") and t["kind"] in ("reverse", "permute"):
+                view = X[::-1] if t["kind"] == "reverse" else X[:, ::-1] if list(t["perm"]) == list(range(p))[::-1] else Xt
+                sc = K.build(spec).fit(X)
+                a = np.array(sc.evaluate(cuts), dtype=float)
+                b = np.asarray(sc.fit(view).evaluate(cuts_t))
+                classes.append("same_scorer_refitted_on_a_view")
+            else:
+                a = np.asarray(K.build(spec).fit(X).evaluate(cuts))
+                b = np.asarray(K.build(spec).fit(Xt).evaluate(cuts_t))
     except RuntimeError as e:
         if "positive definite" in str(e):
             return {"nontrivial": False, "classes": classes + ["not_pd_error"]}
@@ -214,7 +223,8 @@ def detector_cases(draw, tier, det):
     n = draw(st.integers(n_min, max(n_min, nmax)))
     bw = params.get("bandwidth", params.get("min_segment_length", 1))
     X, _ = draw(D.structured_matrix(n, p, exact=False, min_noise_scale=1e-2, boundary_positions=(bw, n - bw)))
-    return {"detector": det, "params": params, "X": X, "t": draw(transformation(p, {rel}))}
+    return {"detector": det, "params": params, "X": X, "t": draw(transformation(p, {rel})),
+            "one_detector": draw(st.sampled_from([False, True]))}
 
 
 def pelt_objective(params, X, cpts, penalty):
@@ -310,11 +320,27 @@ def check_detector(case):
     B = ref.error_bound(n, M)
     classes = [f"relation={t['kind']}"]
     spec = K.detector_spec(name, params)
+    one_detector = t["kind"] == "permute" and case.get("one_detector")
     with sut(f"{name} on X and on transformed X"):
-        d1 = K.build(spec).fit(X)
-        y1 = d1.predict(X)
-        d2 = K.build(spec).fit(Xt)
-        y2 = d2.predict(Xt)
+        if one_detector:
+            # one fitted detector, labelled frames: predict on the frame with permuted columns
+            import pandas as pd
+            cols = [f"v{chr(97 + j)}" for j in range(p)]
+            df = pd.DataFrame(X, columns=cols)
+            d1 = K.build(spec).fit(df)
+            y1 = d1.predict(df)
+            scores1 = d1.scores.copy()
+            d2 = d1
+            y2 = d1.predict(df[[cols[j] for j in t["perm"]]])
+            scores2 = d1.scores.copy()
+            classes.append("one_detector_labelled_frames")
+        else:
+            d1 = K.build(spec).fit(X)
+            y1 = d1.predict(X)
+            scores1 = d1.scores
+            d2 = K.build(spec).fit(Xt)
+            y2 = d2.predict(Xt)
+            scores2 = d2.scores
     kind, e1 = K.sparse_events(y1)
     _, e2 = K.sparse_events(y2)
     gauss = any(isinstance(v, dict) and "Gaussian" in str(v) for v in params.values())
@@ -333,7 +359,7 @@ def check_detector(case):
         cost_tol = 16 * p * B + 16 * p * (n + 1) ** 2 * ref.EPS * M
     nontrivial = bool(e1) and not is_identity(t, p)
     if name == "PELT":
-        f1, f2 = float(d1.scores.to_numpy()[-1]), float(d2.scores.to_numpy()[-1])
+        f1, f2 = float(scores1.to_numpy()[-1]), float(scores2.to_numpy()[-1])
         pen = float(d1.penalty_)
         tol = cost_tol * (len(e1) + len(e2) + 2) + 1e-9 * (1 + abs(f1))
         if t["kind"] == "reverse":
@@ -357,7 +383,7 @@ def check_detector(case):
                             original=e1, transformed=back, objective_of_transformed=obj, optimum=f1)
         return {"nontrivial": nontrivial, "classes": classes}
     if name in ("CAPA", "MVCAPA"):
-        f1, f2 = float(d1.scores.to_numpy()[-1]), float(d2.scores.to_numpy()[-1])
+        f1, f2 = float(scores1.to_numpy()[-1]), float(scores2.to_numpy()[-1])
         tol = cost_tol * (len(e1) + len(e2) + 2) + 1e-9 * (1 + abs(f1))
         if abs(f1 - f2) > tol:
             raise Violation(f"{name}'s optimal total saving changes under column permutation", original=f1, permuted=f2)
@@ -398,16 +424,17 @@ def check_detector(case):
     if abs(thr1 - thr2) > cost_tol + 1e-9 * (1 + abs(thr1)):
         raise Violation(f"{name}: fitted threshold changes under {t['kind']}", original=thr1, transformed=thr2)
     if name == "MovingWindow":
-        s1 = np.asarray(d1.scores, dtype=float).reshape(-1)
-        s2 = np.asarray(d2.scores, dtype=float).reshape(-1)
+        s1 = np.asarray(scores1, dtype=float).reshape(-1)
+        s2 = np.asarray(scores2, dtype=float).reshape(-1)
     else:
-        s1 = d1.scores["score"].to_numpy().astype(float)
-        s2 = d2.scores["score"].to_numpy().astype(float)
+        s1 = scores1["score"].to_numpy().astype(float)
+        s2 = scores2["score"].to_numpy().astype(float)
     if s1.shape != s2.shape or np.any(np.abs(s1 - s2) > cost_tol + 1e-9 * (1 + np.abs(s1))):
         raise Violation(f"{name}: scores change under {t['kind']}", transformation=t,
                         max_difference=float(np.max(np.abs(s1 - s2))) if s1.shape == s2.shape else None, tolerance=float(cost_tol))
     if e1 != e2:
-        if table_margin_ok(name, params, X, d1, delta):
+        from types import SimpleNamespace
+        if table_margin_ok(name, params, X, SimpleNamespace(scores=scores1, threshold_=thr1), delta):
             raise Violation(f"{name}: detections change under {t['kind']} although the decision margin is satisfied",
                             original=[list(e) if isinstance(e, tuple) else e for e in e1],
                             transformed=[list(e) if isinstance(e, tuple) else e for e in e2], transformation=t)
